@@ -211,13 +211,15 @@ class AsyncsshTransport(AsyncTransport):
             "config": self.plugin_transport_args.ssh_config_file,
         }
 
-        if self.plugin_transport_args.auth_strict_key:
-            # let asyncssh know the key we expect so a server presenting any other key is refused
-            # during key exchange, before authentication; the key value is checked again below
-            common_args["known_hosts"] = self._known_host_keys()
-
         # Allow passing `transport_options` to asyncssh
         common_args.update(self._base_transport_args.transport_options.get("asyncssh", {}))
+
+        if self.plugin_transport_args.auth_strict_key:
+            # let asyncssh know the key we expect so a server presenting any other key is refused
+            # during key exchange, before authentication; the key value is checked again below.
+            # this is set *after* merging the users options: with strict key checking on, no option
+            # (i.e. `known_hosts: None`) may take the expected key away again
+            common_args["known_hosts"] = self._known_host_keys()
 
         # Common authentication args
         auth_args: Dict[str, Any] = {
